@@ -537,6 +537,10 @@ class OutgoingBallsHandler(BallDeviceStateHandler):
             # ball is lost but the eject is finished -> return true
             return True
 
+        if eject_success_future.done() and not eject_success_future.cancelled():
+            # the target confirmed the ball. a ball which entered this device in the same moment is a new ball
+            event = eject_success_future
+
         if event == eject_success_future:
             # we eventually got eject success
             await self._handle_eject_success(eject_request)
